@@ -220,7 +220,8 @@ def reconcile_renames(raw_bodies, known, sigs=None):
         if not cs:
             continue
         best = cs[0]
-        if score[(v, best)] < 0.5 and not (len(cs) == 1 and name(best) == name(v)):
+        one_to_one = len(cs) == 1 and sum(1 for v2 in vanished if best in cand[v2]) == 1
+        if score[(v, best)] < 0.5 and not (len(cs) == 1 and name(best) == name(v)) and not (one_to_one and score[(v, best)] >= 0.3):
             continue
         if len(cs) > 1 and score[(v, cs[1])] >= score[(v, best)] - 0.05:
             continue        # no clear winner
